@@ -464,6 +464,10 @@ impl Card {
             }
             8 => {
                 self.ident.push(8);
+                // SEND_IF_COND: bits 31..12 reserved (zero), 11..8 supply voltage (0001b = 2.7-3.6 V)
+                if arg >> 12 != 0 || (arg >> 8) & 0xF != 1 {
+                    self.violate("C14.bad-argument", format!("CMD8 argument {:#010x}: reserved bits must be zero and the voltage field 0001b", arg));
+                }
                 if self.kind == Kind::V1Sdsc {
                     let r = 0x04 | self.r1();
                     self.queue_response(&[r]);
@@ -481,6 +485,10 @@ impl Card {
             41 if app => {
                 self.ident.push(41 | 0x80);
                 let hcs = arg & 0x4000_0000 != 0;
+                // SD_SEND_OP_COND in SPI mode: only bit 30 (HCS) is defined
+                if arg & !0x4000_0000 != 0 {
+                    self.violate("C14.bad-argument", format!("ACMD41 argument {:#010x}: only bit 30 (HCS) may be set in SPI mode", arg));
+                }
                 if self.kind == Kind::Sdhc && !hcs {
                     // a high-capacity card never leaves idle for a host that does not announce HCS
                     self.queue_response(&[0x01]);
